@@ -227,6 +227,11 @@ def s2_flag_iff_ran(prog):
     body = f.body
     p_map = body.arg_local('borrowed_archetypes')
     p_res = body.arg_local('resource_claims')
+    p_out = None
+    for i in range(1, body.argc + 1):
+        t_ = body.local_ty(i)
+        if t_.get('k') == 'ref' and t_.get('mut') and i not in (1,) and (body.local_name(i) or '').endswith('has_run'):
+            p_out = i
     n_run = 0
     for p in rets:
         joins = p.calls(ev_is_join)
@@ -234,6 +239,16 @@ def s2_flag_iff_ran(prog):
         tails = p.calls(lambda e: e['f'].get('trait') == STAGE_T and e['name'] == 'run_add_ons')
         ret = p.ret
         flag = ret[4][0] if isinstance(ret, tuple) and ret[0] == 'agg' and ret[1] == 'tuple' and len(ret[4]) == 2 else None
+        if flag is None and p_out is not None:
+            # the flags are written through a `&mut HasRun` out-parameter: this task's flag is field 0 of it
+            own = ('f', ('d', ('p', p_out, body.local_name(p_out) or '')), 0, 'tuple')
+            sts = [e for e in p.events if e['k'] == 'store' and pathsem.strip_refs(e['loc']) == own]
+            if sts:
+                flag = sts[-1]['value']
+                if flag == pathsem.TRUE:
+                    flag = ('c', 1)
+                elif flag == pathsem.FALSE:
+                    flag = ('c', 0)
         if len(joins) > 1:
             once('S2', 'join-count', joins[1]['ln'], 'run_add_ons must fork at most once per path')
         if len(runs) > 1 or (runs and not joins):
